@@ -4,7 +4,7 @@ stdin : {"seed": int, "cases": [case, ...], "out": path | absent}
 case  : {"id", "tree": node | null, "builder": {...} | null, "basis": [bspec...] (builder cases),
          "terms": [{"ops": [[symbol, dof], ...], "num": int, "exp": int}], "algo": str, "dense": bool,
          "qr_dense": bool}
-node  : {"b": [bspec, ...], "ch": [node, ...]}        bspec: ["spin"|"sho"|"el"|"dummy", dof, nbas]
+node  : {"b": [bspec, ...], "ch": [node, ...]}        bspec: ["spin"|"sho"|"el"|"dummy", dof, nbas] (+ omega, x0 for "sho")
 stdout: RESULT {"cases": [...]}   (everything exact: floats are exported as [numerator, log2(denominator)])
 
 Per case the script runs construct_symbolic_ttno with wrappers around
@@ -37,11 +37,11 @@ def dy(x):
 
 
 def mk_basis(spec):
-    kind, dof, nbas = spec
+    kind, dof, nbas = spec[:3]
     if kind == "spin":
         return BasisHalfSpin(dof)
     if kind == "sho":
-        return BasisSHO(dof, omega=1.0, nbas=nbas)
+        return BasisSHO(dof, omega=(spec[3] if len(spec) > 3 else 1.0), nbas=nbas, x0=(spec[4] if len(spec) > 4 else 0.0))
     if kind == "el":
         return BasisSimpleElectron(dof)
     if kind == "dummy":
